@@ -35,6 +35,12 @@ fn dump_node(n: roxmltree::Node, out: &mut Vec<String>, strings: &mut Vec<String
         }
         let children: Vec<_> = n.children().collect();
         out.push(children.len().to_string());
+        // the value of a leaf is ALL its text (pieces may be separated by foreign elements or comments): the float
+        // table needs the concatenation as well
+        let pieces: Vec<&str> = children.iter().filter(|c| c.is_text()).filter_map(|c| c.text()).collect();
+        if pieces.len() > 1 {
+            strings.push(pieces.concat());
+        }
         for c in children {
             dump_node(c, out, strings);
         }
